@@ -40,7 +40,7 @@ func init() {
 
 // nonNilResult: every return of fn (result 0) is a non-nil pointer.
 func (c *Ctx) nonNilResult(fn *ssa.Function, depth int) bool {
-	if fn == nil || fn.Blocks == nil || depth > 4 {
+	if fn == nil || fn.Blocks == nil || depth > 9 {
 		return false
 	}
 	ok := true
@@ -86,8 +86,139 @@ func (c *Ctx) nonNilValue(v ssa.Value, at ssa.Instruction, depth int) bool {
 		if cal := t.Call.StaticCallee(); cal != nil && c.InModuleFn(cal) && c.nonNilResult(cal, depth+1) {
 			return true
 		}
+		// a function that answers nil only for a nil argument, called with a non-nil one
+		if cal := t.Call.StaticCallee(); cal != nil && c.InModuleFn(cal) && depth < 7 {
+			if i := c.nilOnlyForNilParam(cal, depth+1); i >= 0 && i < len(t.Call.Args) && c.nonNilValue(t.Call.Args[i], at, depth+1) {
+				return true
+			}
+		}
+	case *ssa.UnOp:
+		if fv, _ := loadedField(t); fv != nil && c.fieldNeverNil(fv, depth+1) {
+			return true
+		}
 	}
 	return c.guardedNonNil(v, at)
+}
+
+// nilOnlyForNilParam: every return of fn whose value may be nil is dominated
+// by the true edge of <param i> == nil, for one parameter i; returns i or -1.
+func (c *Ctx) nilOnlyForNilParam(fn *ssa.Function, depth int) int {
+	for i, pr := range fn.Params {
+		if _, isPtr := pr.Type().Underlying().(*types.Pointer); !isPtr {
+			continue
+		}
+		ok, n := true, 0
+		funcInstrs(fn, func(in ssa.Instruction) {
+			rt, isR := in.(*ssa.Return)
+			if !isR || len(rt.Results) == 0 {
+				return
+			}
+			n++
+			if c.nonNilValue(retVal(rt, 0), rt, depth+1) {
+				return
+			}
+			guarded := false
+			for _, cd := range CondsAt(rt.Block()) {
+				cd = unwrapNot(cd)
+				if bo, isB := cd.V.(*ssa.BinOp); isB && (bo.Op == token.EQL || bo.Op == token.NEQ) && (bo.Op == token.EQL) == cd.True {
+					if (bo.X == ssa.Value(pr) && isNilConst(bo.Y)) || (bo.Y == ssa.Value(pr) && isNilConst(bo.X)) {
+						guarded = true
+					}
+				}
+			}
+			if !guarded {
+				ok = false
+			}
+		})
+		if ok && n > 0 {
+			return i
+		}
+	}
+	return -1
+}
+
+// fieldNeverNil: pointer field fv of a module struct is never nil: every
+// store to it in the module stores a non-nil value, and every allocation of
+// the struct is in a function that stores the field of that allocation.
+func (c *Ctx) fieldNeverNil(fv *types.Var, depth int) bool {
+	if depth > 8 {
+		return false
+	}
+	if c.neverNilMemo == nil {
+		c.neverNilMemo = map[*types.Var]int{}
+	}
+	switch c.neverNilMemo[fv] {
+	case 1:
+		return false // in progress
+	case 2:
+		return true
+	case 3:
+		return false
+	}
+	c.neverNilMemo[fv] = 1
+	var owner types.Type
+	for _, pk := range []*ssa.Package{c.Client, c.State} {
+		for _, m := range pk.Members {
+			if tn, ok := m.(*ssa.Type); ok {
+				if st, ok := tn.Type().Underlying().(*types.Struct); ok {
+					for i := 0; i < st.NumFields(); i++ {
+						if st.Field(i) == fv {
+							owner = tn.Type()
+						}
+					}
+				}
+			}
+		}
+	}
+	ok := owner != nil
+	nStore, nAlloc := 0, 0
+	for _, fn := range c.ModFuncs {
+		if !ok {
+			break
+		}
+		funcInstrs(fn, func(in ssa.Instruction) {
+			switch t := in.(type) {
+			case *ssa.Store:
+				if f, _ := fieldOf(t.Addr); f == fv {
+					nStore++
+					if !c.nonNilValue(t.Val, t, depth+1) {
+						ok = false
+					}
+				}
+				if pt, isP := t.Addr.Type().Underlying().(*types.Pointer); isP && owner != nil && types.Identical(pt.Elem(), owner) {
+					ok = false // whole-struct store
+				}
+			case *ssa.Alloc:
+				pt, _ := t.Type().Underlying().(*types.Pointer)
+				if pt == nil || owner == nil || !types.Identical(pt.Elem(), owner) {
+					return
+				}
+				nAlloc++
+				set := false
+				for _, ref := range *t.Referrers() {
+					if fa, isFA := ref.(*ssa.FieldAddr); isFA {
+						if f, _ := fieldOf(fa); f == fv {
+							for _, r2 := range *fa.Referrers() {
+								if st, isSt := r2.(*ssa.Store); isSt && st.Addr == ssa.Value(fa) {
+									set = true
+								}
+							}
+						}
+					}
+				}
+				if !set {
+					ok = false
+				}
+			}
+		})
+	}
+	ok = ok && nStore > 0 && nAlloc > 0
+	if ok {
+		c.neverNilMemo[fv] = 2
+	} else {
+		c.neverNilMemo[fv] = 3
+	}
+	return ok
 }
 
 func (c *Ctx) guardedNonNil(v ssa.Value, at ssa.Instruction) bool {
@@ -1072,7 +1203,15 @@ func runC19(c *Ctx) {
 					for _, cd := range CondsAt(cs.Block()) {
 						cd = unwrapNot(cd)
 						if bo, isB := cd.V.(*ssa.BinOp); isB {
-							if sc, isS := bo.X.(*ssa.Call); isS && sc.Call.StaticCallee() != nil && sc.Call.StaticCallee().Name() == "Size" && sc.Call.Args[0] == set {
+							sc, isS := bo.X.(*ssa.Call)
+							measures := isS && sc.Call.StaticCallee() != nil && sc.Call.StaticCallee().Name() == "Size" && sc.Call.Args[0] == set
+							if isS && !measures {
+								// len(<the requested slice>) is the same measure
+								if b, isB := sc.Call.Value.(*ssa.Builtin); isB && b.Name() == "len" && sc.Call.Args[0] == ssa.Value(sl) {
+									measures = true
+								}
+							}
+							if measures {
 								one := func(v ssa.Value) bool { k, ok := constInt(v); return ok && k == 1 }
 								if (bo.Op == token.GTR && isZero(bo.Y) && cd.True) || (bo.Op == token.NEQ && isZero(bo.Y) && cd.True) ||
 									(bo.Op == token.EQL && isZero(bo.Y) && !cd.True) || (bo.Op == token.LEQ && isZero(bo.Y) && !cd.True) ||
@@ -1351,30 +1490,55 @@ func (c *Ctx) wantedSetRule(ctor *ssa.Function) {
 		}
 	})
 	okSasl, okUser := false, false
+	saslGuard := func(cds []Cond) bool {
+		if len(cds) != 1 {
+			return false
+		}
+		cd := unwrapNot(cds[0])
+		if bo, ok := cd.V.(*ssa.BinOp); ok && (bo.Op == token.NEQ) == cd.True {
+			return (c.cfgFieldLoad(bo.X, "Sasl") && isNilConst(bo.Y)) || (c.cfgFieldLoad(bo.Y, "Sasl") && isNilConst(bo.X))
+		}
+		return false
+	}
+	// contribution: what is added (directly, or to a name list that is later added as a whole) and under which conditions
+	var contribute func(arg ssa.Value, cds []Cond, depth int)
+	contribute = func(arg ssa.Value, cds []Cond, depth int) {
+		if depth > 6 {
+			return
+		}
+		if fv, base := loadedField(arg); fv != nil && fv.Name() == "Capabilites" {
+			if f2, _ := loadedField(base); f2 == c.A.Cfg && len(cds) == 0 {
+				okUser = true
+			}
+		}
+		for _, el := range c.varargElems(arg) {
+			if s, ok := constString(el); ok && s == "sasl" && saslGuard(cds) {
+				okSasl = true
+			}
+		}
+		switch t := arg.(type) {
+		case *ssa.Call:
+			if b, ok := t.Call.Value.(*ssa.Builtin); ok && b.Name() == "append" {
+				rel := CondsAt(t.Block())
+				contribute(t.Call.Args[0], cds, depth+1)
+				if len(t.Call.Args) > 1 {
+					contribute(t.Call.Args[1], append(append([]Cond{}, cds...), rel...), depth+1)
+				}
+			}
+		case *ssa.Phi:
+			for _, e := range t.Edges {
+				contribute(e, cds, depth+1)
+			}
+		case *ssa.Slice:
+			contribute(t.X, cds, depth+1)
+		}
+	}
 	for _, cs := range CallSites(ctor) {
 		cal := cs.Common().StaticCallee()
 		if cal == nil || cal.Name() != "Add" || cs.Common().Args[0] != set {
 			continue
 		}
-		arg := cs.Common().Args[1]
-		if fv, base := loadedField(arg); fv != nil && fv.Name() == "Capabilites" {
-			if f2, _ := loadedField(base); f2 == c.A.Cfg && len(CondsAt(cs.Block())) == 0 {
-				okUser = true
-			}
-		}
-		for _, el := range c.varargElems(arg) {
-			if s, ok := constString(el); ok && s == "sasl" {
-				cds := CondsAt(cs.Block())
-				if len(cds) == 1 {
-					cd := unwrapNot(cds[0])
-					if bo, ok := cd.V.(*ssa.BinOp); ok && (bo.Op == token.NEQ) == cd.True {
-						if (c.cfgFieldLoad(bo.X, "Sasl") && isNilConst(bo.Y)) || (c.cfgFieldLoad(bo.Y, "Sasl") && isNilConst(bo.X)) {
-							okSasl = true
-						}
-					}
-				}
-			}
-		}
+		contribute(cs.Common().Args[1], CondsAt(cs.Block()), 0)
 	}
 	r.Add("R1", "wanted:sasl", c.Pos(ctor.Pos()), c.FuncKey(ctor), "sasl is wanted iff SASL is configured", okSasl, "Add(sasl) under Config.Sasl != nil only")
 	r.Add("R1", "wanted:configured", c.Pos(ctor.Pos()), c.FuncKey(ctor), "the configured capabilities are wanted", okUser, "Add(Config.Capabilites...) unconditionally")
